@@ -12,7 +12,10 @@ CHECK = dict(
               "canonical dumps of its private maps) plus stateless model checking of concurrent callers and a reorg invalidation (preemption-bounded "
               "DFS, scheduling points at the cache's locks and inside the beacon-node calls)",
     claim="Part A: all states reachable by sequences of depth <=4 (quick) / <=6 (thorough) over {attester|proposer|sync request for epoch 5/6 and "
-          "7 index subsets, reorg(4), reorg(5), trim(8), trim(9)}; every answer compared with the stub beacon node's direct answer, fetched-afresh "
+          "7 index subsets, reorg(4), reorg(5), trim(8), trim(9), the same requests with the beacon-node call failing}, from the empty cache for the kind sets "
+          "{att},{pro},{syn},{att,syn} and - warm start - from the state of a running node (all three kinds cached for both epochs, completely or for one "
+          "validator only in epoch 6) with all three kinds in the alphabet; a failed beacon-node call must surface as an error and leave nothing behind (judged by "
+          "the later requests); every answer compared with the stub beacon node's direct answer, fetched-afresh "
           "after invalidation, no shared mutable memory (reflection alias walker + callers scribbling over every result). Part B: all interleavings "
           "(quick <=2 preemptions, thorough unbounded) of 3 threads of overlapping requests and a reorg",
     trusted="stub beacon node with a versioned assignment table; synctest/vsync/runtime overlay as for C17",
